@@ -73,3 +73,65 @@ Proof.
       f_equal; f_equal; list_eq.
   - reflexivity.
 Qed.
+
+(* ------------------------------------------------------------------ statements as they appear in PropertiesSource.v *)
+
+Lemma ps_writer : forall o v buf cur,
+  gen_manifest_json_ex_buf o v buf cur = src_result buf cur (wr o cur v).
+Proof. intros o v. exact (tie_all o v). Qed.
+
+Lemma ps_entry : forall o v, gen_manifest_json_ex o v = manifest o v.
+Proof.
+  intros o v. unfold gen_manifest_json_ex, manifest. rewrite ps_writer.
+  destruct (wr o [] v); reflexivity.
+Qed.
+
+Lemma ps_formats :
+  gen_fmt_default = fmt_default /\ gen_fmt_minify = fmt_minify /\
+  gen_fmt_std_to_string_helper = fmt_to_string /\
+  (forall n, gen_fmt_cli n = fmt_cli n) /\
+  (forall i n k, gen_fmt_std_to_json i n k = fmt_std i n k).
+Proof.
+  repeat split.
+  - destruct n as [|n]; reflexivity.
+Qed.
+
+Lemma ps_padding_restored : forall o v buf cur buf' cur',
+  gen_manifest_json_ex_buf o v buf cur = Some (buf', cur') ->
+  cur' = cur /\ exists out, buf' = buf ++ out /\ wr o cur v = Some out.
+Proof.
+  intros o v buf cur buf' cur' H. rewrite ps_writer in H.
+  destruct (wr o cur v) as [out|]; [|discriminate]. cbn [src_result] in H. inversion H; subst.
+  split; [reflexivity|]. exists out. split; reflexivity.
+Qed.
+
+Lemma ps_read_back : forall o v out,
+  opts_ok o = true -> nums_ok v = true -> gen_manifest_json_ex o v = Some out -> json_read out = Some v.
+Proof. intros o v out Ho Hn H. rewrite ps_entry in H. exact (read_back o v out Ho Hn H). Qed.
+
+Lemma ps_ctor_read_back : forall v, nums_ok v = true ->
+  (forall out, gen_manifest_json_ex gen_fmt_default v = Some out -> json_read out = Some v) /\
+  (forall out, gen_manifest_json_ex gen_fmt_minify v = Some out -> json_read out = Some v) /\
+  (forall out, gen_manifest_json_ex gen_fmt_std_to_string_helper v = Some out -> json_read out = Some v) /\
+  (forall n out, gen_manifest_json_ex (gen_fmt_cli n) v = Some out -> json_read out = Some v) /\
+  (forall i n k out, all_ws i = true -> all_ws n = true -> kvsep_ok k = true ->
+     gen_manifest_json_ex (gen_fmt_std_to_json i n k) v = Some out -> json_read out = Some v).
+Proof.
+  intros v Hn. destruct ps_formats as (Ed & Em & Et & Ec & Es).
+  repeat split.
+  - intros out H. apply (ps_read_back gen_fmt_default); auto.
+  - intros out H. apply (ps_read_back gen_fmt_minify); auto.
+  - intros out H. apply (ps_read_back gen_fmt_std_to_string_helper); auto.
+  - intros n out H. apply (ps_read_back (gen_fmt_cli n)); auto. rewrite Ec. apply fmt_cli_ok.
+  - intros i n k out Hi Hnl Hk H. apply (ps_read_back (gen_fmt_std_to_json i n k)); auto.
+    rewrite Es. apply fmt_std_ok; assumption.
+Qed.
+
+Lemma ps_function : forall o v,
+  (has_fun v = true -> gen_manifest_json_ex o v = None) /\
+  (has_fun v = false -> exists out, gen_manifest_json_ex o v = Some out).
+Proof.
+  intros o v. rewrite ps_entry. unfold manifest. split.
+  - intro H. apply (proj2 (wr_fun o v [])). exact H.
+  - intro H. exact (p_writer_total o [] v H).
+Qed.
